@@ -145,6 +145,26 @@ def run(report, tier, seed):
             raw.clear()
             try:
                 args, kw = genf(rng, mk)
+                if name in ("floor_divide", "remainder", "divmod") and rng.random() < 0.3:
+                    # integer operands of different widths, values beyond 2**53, booleans: numpy keeps them integral (D43)
+                    da, db = rng.choice([("int64", "int32"), ("int64", "int16"), ("uint8", "int16"), ("int32", "int64"), ("bool", "bool"),
+                                         ("bool", "int64"), ("int64", "uint8"), ("uint16", "uint8")])
+                    s_ = catalogue._shape(rng, 0, 2)
+                    n_ = int(numpy.prod(s_)) if s_ else 1
+                    va = [rng.choice([2 ** 60 + 1, -(2 ** 61) - 3, 7, 0, -5]) if da == "int64" else rng.choice([0, 1, 5, 7, 100]) for _ in range(n_)]
+                    vb = [rng.choice([1, 2, 3, 7]) for _ in range(n_)]
+                    aa = numpy.array(va).astype(da).reshape(s_)
+                    bb = numpy.array(vb).astype(db).reshape(s_)
+                    pa_ = numpoly.polynomial(aa)
+                    raw[id(pa_)] = aa
+                    args, kw = (pa_, bb), {}
+                if name == "power" and rng.random() < 0.4:
+                    # exponents that are not natural numbers: for constants numpy's own power (D41: they used to be
+                    # truncated to integers, numpy.power(polynomial([4., 9.]), 0.5) was [1, 1])
+                    s_ = catalogue._shape(rng, 0, 2)
+                    base = numpoly.polynomial(numpy.array([rng.choice([0.25, 1.0, 4.0, 9.0, 2.0]) for _ in range(int(numpy.prod(s_)) if s_ else 1)]).reshape(s_))
+                    raw[id(base)] = numpy.asarray(base.tonumpy())
+                    args = (base, rng.choice([0.5, -1, -1.0, 2.0, -2, 1.5, numpy.array([0.5, 2.0]) if s_ in ((), (2,)) or (s_ and s_[-1] == 2) else -0.5]))
             except Exception:  # noqa: BLE001
                 continue
             rargs = tuple(unwrap(a) for a in args)
